@@ -137,6 +137,10 @@ def checksJson (g : Graph) (up : Bool) (c : Compiled) : Json :=
     -- premise of `compile_correct_wf` / `visitOrder_nodup` (Props/C04.lean): origins consistent, applications in topological order
     ("wf_graph", Json.bool g.WF),
     ("fuse_safe", Json.bool fuseOk),
+    -- conclusion of `fuse_produces_safe` (Props/C04.lean; a theorem for WF graphs) and its two emission premises, re-decided per graph
+    ("fuse_safe_prog", Json.bool (fuseSafe ρ prog)),
+    ("single_def", Json.bool (decide (prog.flatMap Stmt.outputVars).Nodup)),
+    ("blocks_bound", Json.bool (c.st.body.all (fun p => decide (p.1 < c.nblocks)))),
     ("ref_ok", Json.bool refOk), ("same_trace", Json.bool sameTrace), ("same_ret", Json.bool sameRet),
     ("trace", jArr (refTrace.map eventJson)),
     ("prog_ops", jNat (progOps prog)), ("ref_ops", jNat (refOps g c.order))]
